@@ -442,7 +442,11 @@ def run(ctx):
     s.close()
     # cassette
     for ci in range(ctx.pick(6, 60)):
-        cassette(ctx, events, progen.program(rng, special=rng.choice([0.0, 0.2])), rng, 'cas%d' % ci)
+        cprog = progen.program(rng, special=rng.choice([0.0, 0.2]))
+        if ci < 2:
+            # line-buffer boundary on the cassette text reader as well
+            cprog = [(3, b'3 PRINT "boundary"'), progen.long_line(rng, 7, [255, 254][ci]), (9, b'9 END')]
+        cassette(ctx, events, cprog, rng, 'cas%d' % ci)
 
     # ---- 4. programs: corpus sample ----
     corpus = sorted(glob.glob(os.path.join(core.REPO, 'tests', 'basic', '**', '*.BAS'), recursive=True) +
